@@ -3,6 +3,8 @@
 property is anchored in (no /verif content).  Used to test the checks for false alarms."""
 import json, sys
 pid = sys.argv[1]
+start = int(sys.argv[2]) if len(sys.argv) > 2 else 1          # number of the first refactoring (later rounds: 4, 7, ..)
+ks = "%d, %d, %d" % (start, start + 1, start + 2)
 for l in open('/verif/properties.jsonl'):
     p = json.loads(l)
     if p['id'] == pid:
@@ -27,7 +29,7 @@ Your task: produce THREE different, independent BEHAVIOUR-PRESERVING refactoring
 
 Be careful and conservative about equivalence: if you are not sure a rewrite is equivalent for every input (integer overflow, empty inputs, error precedence when two checks could both fail, evaluation order with side effects), do not use it.
 
-For each refactoring k = 1, 2, 3 create the directory /tmp/benout-{pid}/r<k>/ containing:
+For each refactoring k = {ks} create the directory /tmp/benout-{pid}/r<k>/ containing:
   - patch.diff : `git diff` of ONLY that refactoring against the worktree's HEAD (apply-able with `git apply` on a clean checkout),
   - meta.json : {{"property": "{pid}", "where": ["<file::function>", ...], "what": "<what was rewritten>", "why_equivalent": "<the argument, point by point>", "ran": ["<commands you ran and their outcome>"]}}.
 
